@@ -1,13 +1,13 @@
 SPECIFICATION FairSpec
 CONSTANTS
-  MaxOut = 2
+  MaxOut = 3
   MaxIn = 2
   MaxXfer = 2
   MaxZ = 1
   MaxDrag = 1
   FeedOut = {"plain", "cmdlike", "zmcancel", "zmhdr", "tlmark", "trig"}
   FeedIn = {"plain", "ctrlc", "pathex"}
-  OptSets <- Osc52On
+  OptSets <- AllOpts
   ExitCodes = {0, 3}
   EchoAssumed = TRUE
 INVARIANTS TypeOK PassThroughOut PassThroughIn PtrClearedOnEveryExit NoStuckFlags PromptOnlyInTransfer ExitPassed LastWordsDelivered
